@@ -64,7 +64,7 @@ class DetQR(Lin):
 def cases(tier, cfg, seed):
     out = []
     for T in (['double'] if tier == 'quick' else ['double', 'float']):
-        for n in ((1, 2, 3, 4) if tier == 'quick' else (1, 2, 3, 4, 5, 6, 8)):
+        for n in ((1, 2, 3) if tier == 'quick' else (1, 2, 3, 4, 5, 6, 8)):
             out.append(QR(T, n, 'MGSR', orth=(n <= (2 if tier == 'quick' else 4))))
         for n in ((2,) if tier == 'quick' else (2, 3)): out.append(DetQR(T, n))
     if tier == 'quick': out.append(QR('float', 3, 'MGSR', orth=False))
